@@ -431,7 +431,7 @@ func coqPl(ps []rP) string {
 	}
 	return coqList(out)
 }
-func coqZs(ts []int64) string {
+func vestCoqZs(ts []int64) string {
 	out := []string{}
 	for _, t := range ts {
 		out = append(out, coqZi(t))
@@ -856,7 +856,7 @@ func vRunPure(id string, in vInput) Case {
 			cs = append(cs, fmt.Sprintf("%d%%nat", counts[i]))
 		}
 		coq = fmt.Sprintf("(mkpin %s %s %s %s %s %s %s,\n   mkpobs %s %s (%s, %s, %s) (%s, %s, %s) (%s, %s, %s, %s))",
-			coqZi(in.SA), coqZi(in.SB), coqPl(A), coqPl(B), coqZi(in.End), total.coq(), coqZs(in.Times),
+			coqZi(in.SA), coqZi(in.SB), coqPl(A), coqPl(B), coqZi(in.End), total.coq(), vestCoqZs(in.Times),
 			coqList(rs), coqList(cs),
 			coqZi(disj.S), coqZi(disj.E), coqPl(disj.P),
 			coqZi(conj.S), coqZi(conj.E), coqPl(conj.P),
@@ -1418,7 +1418,7 @@ func vRunAcc(id string, in vInput) []Case {
 		endopt = "(Some " + coqZi(*in.EndOpt) + ")"
 	}
 	coq := fmt.Sprintf("(mkain %s %s %s %s %s %s %s %s,\n   mkaobs %s %s\n    %s\n    %s\n    %s\n    %s\n    %s\n    %s\n    %s\n    %s\n    %s)",
-		orig.coq(), coqZi(in.Start), coqPl(LP), coqPl(VP), vAmtOf(in.DFree).coq(), vAmtOf(in.DVest).coq(), endopt, coqZs(in.Times),
+		orig.coq(), coqZi(in.Start), coqPl(LP), coqPl(VP), vAmtOf(in.DFree).coq(), vAmtOf(in.DVest).coq(), endopt, vestCoqZs(in.Times),
 		view.coq(), coqN(vcode),
 		col(unl, false), col(ves, false), col(vesting, true), col(lup, true), col(uv, false), col(luv, true), col(locked, true),
 		coqList(cs), coqList(cl))
